@@ -158,6 +158,20 @@ pub fn gen_case(prop: &str, r: &mut SplitMix64) -> FwCase {
     }
     let n = r.range(sc.min_machines, sc.max_machines) as usize;
     let machines = (0..n).map(|_| gen_machine(r, &sc.mp)).collect::<Vec<_>>();
+    // C01 quantifies over what validation ACCEPTS: also run adversarially mutated machines that the
+    // real validator lets through (with a sound validator these are valid machines like the others)
+    let mut machines = machines;
+    if prop == "C01" && n > 0 && r.chance(1, 4) {
+        let k = r.below(n as u64) as usize;
+        let mut mm = crate::c12::to_mirror(&machines[k]);
+        for _ in 0..r.range(1, 2) {
+            crate::c12::mutate(r, &mut mm);
+        }
+        let m2 = crate::c12::from_mirror(&mm);
+        if m2.validate().is_ok() {
+            machines[k] = m2;
+        }
+    }
     let (fpad, fblk) = if sc.fw_fracs {
         (*r.pick(&FRACS), *r.pick(&FRACS))
     } else {
@@ -687,7 +701,70 @@ pub fn gen_c10_pair(r: &mut SplitMix64) -> (FwCase, FwCase, usize) {
     let mut hp = HProfile::mixed();
     hp.max_calls = 10;
     hp.max_events = 3;
-    let (t0, calls) = gen_history(r, total, &hp);
+    let (t0, mut calls) = gen_history(r, total, &hp);
+    // directed: counting machines (NormalSent up, NormalRecv down, act on CounterZero) next to each other, driven by
+    // rounds of sends and receives, so that several machines zero a counter in the same call, repeatedly
+    let mut machines = machines;
+    let mut m = m;
+    if r.chance(1, 3) {
+        let counting = |r: &mut SplitMix64| -> maybenot::Machine {
+            use enum_map::enum_map;
+            use maybenot::counter::{Counter, Operation};
+            use maybenot::event::Event;
+            use maybenot::state::{State, Trans};
+            let use_b = r.chance(1, 3);
+            let set = |s: &mut State, op: Operation| {
+                if use_b {
+                    s.counter = (None, Some(Counter::new(op)));
+                } else {
+                    s.counter = (Some(Counter::new(op)), None);
+                }
+            };
+            let mut t0 = enum_map! { _ => vec![] };
+            t0[Event::NormalSent] = vec![Trans(0, 1.0)];
+            t0[Event::NormalRecv] = vec![Trans(1, 1.0)];
+            let mut s0 = State::new(t0);
+            set(&mut s0, Operation::Increment);
+            let mut t1 = enum_map! { _ => vec![] };
+            t1[Event::NormalRecv] = vec![Trans(1, 1.0)];
+            t1[Event::NormalSent] = vec![Trans(0, 1.0)];
+            t1[Event::CounterZero] = vec![Trans(2, 1.0)];
+            let mut s1 = State::new(t1);
+            set(&mut s1, Operation::Decrement);
+            let mut t2 = enum_map! { _ => vec![] };
+            t2[Event::NormalSent] = vec![Trans(0, 1.0)];
+            let mut s2 = State::new(t2);
+            s2.action = Some(maybenot::action::Action::SendPadding { bypass: false, replace: false, timeout: const_dist(*r.pick(&[1.0, 7.0, 100.0])), limit: None });
+            maybenot::Machine::new(u64::MAX, 0.0, u64::MAX, 0.0, vec![s0, s1, s2]).unwrap()
+        };
+        let total2 = r.range(2, 3) as usize;
+        machines = (0..total2).map(|_| counting(r)).collect();
+        let pos2 = r.below(total2 as u64) as usize;
+        m = machines[pos2].clone();
+        // rounds: k sends then k receives, batched in one call or one event per call
+        let mut t = t0;
+        calls = vec![];
+        for _ in 0..r.range(2, 5) {
+            let k = r.range(1, 3) as usize;
+            let mut evs: Vec<maybenot::TriggerEvent> = vec![];
+            evs.extend((0..k).map(|_| maybenot::TriggerEvent::NormalSent));
+            evs.extend((0..k).map(|_| maybenot::TriggerEvent::NormalRecv));
+            if r.chance(1, 2) {
+                t = t.saturating_add(1000);
+                calls.push((t, evs));
+            } else {
+                for e in evs {
+                    t = t.saturating_add(1000);
+                    calls.push((t, vec![e]));
+                }
+            }
+        }
+        return finish_c10_pair(r, machines, m, pos2, t0, calls);
+    }
+    finish_c10_pair(r, machines, m, pos, t0, calls)
+}
+
+fn finish_c10_pair(r: &mut SplitMix64, machines: Vec<maybenot::Machine>, m: maybenot::Machine, pos: usize, t0: u64, calls: Vec<(u64, Vec<maybenot::TriggerEvent>)>) -> (FwCase, FwCase, usize) {
     let foreign = usize::MAX;
     let project = |e: &maybenot::TriggerEvent| -> maybenot::TriggerEvent {
         use maybenot::{MachineId, TriggerEvent::*};
